@@ -135,6 +135,28 @@ def main():
         for sid in ids:
             if os.path.exists(SEEDED + '/' + sid + '/meta.json'):
                 run(sid)
+    elif cmd == 'report':
+        rows = []
+        for sid in sorted(os.listdir(SEEDED)):
+            f = SEEDED + '/' + sid + '/meta.json'
+            if not os.path.exists(f):
+                continue
+            m = json.load(open(f))
+            res = m.get('results', {})
+            caught = [c for c, r in sorted(res.items()) if r.get('caught')]
+            missed = [c for c, r in sorted(res.items()) if not r.get('caught')]
+            own = re.match(r'C\d\d', m['property']).group(0)
+            first = (res.get(own, {}).get('first') or '').replace('|', '/').replace('\n', ' ')[:110]
+            summ = m.get('summary', '').replace('|', '/').replace('\n', ' ')
+            if len(summ) > 230:
+                summ = summ[:227] + '...'
+            rows.append('| %s | %s | %s | %s | %s |' % (sid, summ, ', '.join(caught) or '-', ', '.join(missed) or '-', first + (' — ' + m['history'] if m.get('history') else '')))
+        table = ['| id | change (passes the unedited suite) | caught by | run but not caught by | first report of the property\'s own check; history |', '|---|---|---|---|---|'] + rows
+        text = open(ROOT + '/DESIGN.md').read()
+        a, b = text.index('<!-- SEEDED-MATRIX-BEGIN -->'), text.index('<!-- SEEDED-MATRIX-END -->')
+        text = text[:a] + '<!-- SEEDED-MATRIX-BEGIN -->\n' + '\n'.join(table) + '\n' + text[b:]
+        open(ROOT + '/DESIGN.md', 'w').write(text)
+        print('%d seeded changes in the table' % len(rows))
     elif cmd == 'cleanup':
         sh(['git', '-C', '/repo', 'worktree', 'remove', '--force', SCRATCH])
 
